@@ -172,7 +172,7 @@ func runC14(t *testing.T, c *choice.Stream, r *Result, opt RunOpt) {
 				panic(err)
 			}
 			cols = nil
-			for i := 0; i < c.Range("block.bigfixed.n", 2, 3); i++ {
+			for i := 0; i < c.Range("block.bigfixed.n", 2, 6); i++ {
 				cols = append(cols, ColSpec{Name: fmt.Sprintf("c%d", i), Type: t, RT: rt})
 			}
 			rows = (1<<20)/rt.Size + c.Pick("block.bigfixed.plus", 0, 1, 4464)
@@ -220,6 +220,21 @@ func runC14(t *testing.T, c *choice.Stream, r *Result, opt RunOpt) {
 			r.Violate("path-equivalence", "path:block", "WriteBlock + Flush produced %d bytes, EncodeBlock %d; first difference at %d (columns %v, %d rows)", len(sink.Got), len(want), firstDiff(sink.Got, want), colNames(cols), rows)
 			return
 		}
+		// the same Writer carries the next block of the stream as well: what the
+		// first flush left behind must not leak into (or be cut out of) the second
+		sink.Got = sink.Got[:0]
+		if err := blk.WriteBlock(w, rev, input); err != nil {
+			r.Harness("WriteBlock: %v", err)
+			return
+		}
+		if _, err := w.Flush(); err != nil {
+			r.Harness("Flush: %v", err)
+			return
+		}
+		if !bytes.Equal(sink.Got, a.Buf) {
+			r.Violate("path-equivalence", "path:block:second", "the second WriteBlock + Flush on one Writer produced %d bytes, EncodeBlock %d; first difference at %d (columns %v, %d rows)", len(sink.Got), len(a.Buf), firstDiff(sink.Got, a.Buf), colNames(cols), rows)
+			return
+		}
 		// and column by column
 		for i, in := range input {
 			var cb proto.Buffer
@@ -255,6 +270,15 @@ func runC14(t *testing.T, c *choice.Stream, r *Result, opt RunOpt) {
 		default:
 			ops = append(ops, c14Op{'f', 0})
 		}
+	}
+	if c.Bool("a.huge", 1, 40) {
+		// one append of several megabytes: whatever the writer does with a
+		// buffer that grew this far, the next flush still delivers what was
+		// appended after it
+		i := c.Draw("a.huge.at", len(ops))
+		k := c.Pick("a.huge.n", 3<<20, 4<<20+1, 5<<20, 9<<20)
+		ops = append(ops[:i:i], append([]c14Op{{'a', k}}, ops[i:]...)...)
+		total += k
 	}
 	mode := c.Draw("sink", 3)
 	at := 0
